@@ -209,6 +209,17 @@ def coc_output_loop():
     return [op, int(right), len(dec), int(isinstance(first.body[-1], ast.Continue))]
 
 
+def rfcomm_pn_validation():
+    """rfcomm.Multiplexer.on_mcc_pn validates the negotiated frame size on both branches"""
+    from bumble import rfcomm
+    src = u(fn_ast(rfcomm.Multiplexer.on_mcc_pn))
+    chk = u(fn_ast(rfcomm.Multiplexer.acceptable_frame_size)) if hasattr(rfcomm.Multiplexer, 'acceptable_frame_size') else ''
+    ok = int('max_frame_size <= RFCOMM_MAX_FRAME_SIZE' in chk
+             and 'min(max_frame_size, self.l2cap_channel.peer_mtu - 5) >= RFCOMM_MIN_FRAME_SIZE' in chk)
+    return [getattr(rfcomm, 'RFCOMM_MIN_FRAME_SIZE', 0), getattr(rfcomm, 'RFCOMM_MAX_FRAME_SIZE', 0), ok,
+            src.count('self.acceptable_frame_size(pn.max_frame_size)')]
+
+
 def att_item_loops():
     """att: the __post_init__ loops of the four response classes -> (op, guard, header, stride)
     with 0 standing for 'the length byte of the PDU' and -n for 'n + uuid_size'."""
@@ -277,6 +288,8 @@ def render():
            '  (* tx_credit_spent per branch in source order: credit byte + data, credit byte only, data *)',
            f'Definition coc_output_loop_shape : list Z := {zl(coc_output_loop())}.',
            '  (* loop guard operator on self.credits (3 is >), its bound, credit decrements per PDU, continues after each PDU *)',
+           f'Definition rfcomm_pn_validation : list Z := {zl(rfcomm_pn_validation())}.',
+           '  (* minimum / maximum frame size, the check bounds the effective frame size, number of call sites in on_mcc_pn *)',
            f'Definition credit_based_validation : list Z := {zl(credit_based_validation())}.',
            '  (* minimum MTU, minimum MPS, validated in: LE request, enhanced request, LE response, enhanced response *)',
            'Definition att_item_loop_shapes : list (Z * Z * Z * Z) := [' + '; '.join(f'({a}, {b}, {c}, {d if d >= 0 else f"({d})"})' for a, b, c, d in att_item_loops()) + '].',
